@@ -1020,6 +1020,9 @@ def _run_model(case, ctx):
         return
     delayed_copies(out, "generate_waveform")
     scale = float(np.max(np.abs(out)))
+    if not ctx.check(np.isfinite(scale) and scale > 0, "C07.model_delay",
+                     "generate_waveform returned an all-zero or non-finite array for a non-zero spike"):
+        return
     if case.get("rep"):
         # the same argument objects once more: the answer computed from the untouched copies must come back
         out_r = ctx.call("C07.model", gen, **kw)
